@@ -126,6 +126,7 @@ fn main() {
             }
             Some((0..n).map(|i| u32::from_le_bytes([b[4 + 4 * i], b[5 + 4 * i], b[6 + 4 * i], b[7 + 4 * i]])).collect())
         });
+        r.replay_arena_calls = std::fs::read(path).ok().and_then(|b| ppp_verif::engine::journal_arena_calls(&b));
         match (cells, stage.clone()) {
             (Some(c), Some(s)) => r.replay_tape = Some((s, c)),
             _ => {
@@ -186,6 +187,7 @@ fn main() {
                 let check = v["check"].as_str().unwrap_or("").to_string();
                 r.replay = Some((check, v["case"].clone()));
                 r.replay_pre = v.get("preceded_by").and_then(|p| p.as_array()).cloned().unwrap_or_default();
+                r.replay_arena_calls = v.get("arena_calls").and_then(|a| a.as_u64());
             }
             _ => {
                 // raw bytes (e.g. a libFuzzer artifact): judged by the property's byte-level check
